@@ -261,6 +261,8 @@ def _dataset(rng, big=False):
 
 def _feed(inst, data, rng, style):
     """give all rows of data (N,F) to inst in the given style"""
+    from ..common import relayout
+
     N, F = data.shape
     order = rng.permutation(N) if rng.random() < 0.7 else np.arange(N)
     data = data[order]
@@ -307,25 +309,26 @@ def _feed(inst, data, rng, style):
                 if kind == "t3mid":
                     x = np.array(np.moveaxis(x, -1, 1))
                     ax = 1
+            x = relayout(rng, x)
             x.setflags(write=False)
             inst.accumulate(x, axis=ax)
             pos += k
             calls.append("%s:block%d" % (kind, k))
             continue
         if kind == "vec" or left == 1:
-            x = np.array(data[pos]); x.setflags(write=False)
+            x = np.array(data[pos]); x = relayout(rng, x); x.setflags(write=False)
             inst.accumulate(x)
             pos += 1
             calls.append("vec")
         elif kind == "t2":
             k = int(rng.integers(1, left + 1))
-            x = np.array(data[pos:pos + k]); x.setflags(write=False)
+            x = np.array(data[pos:pos + k]); x = relayout(rng, x); x.setflags(write=False)
             inst.accumulate(x) if rng.random() < 0.5 else inst.accumulate(x, axis=1)
             pos += k
             calls.append("t2:%d" % k)
         elif kind == "t2T":
             k = int(rng.integers(1, left + 1))
-            x = np.array(data[pos:pos + k].T); x.setflags(write=False)
+            x = np.array(data[pos:pos + k].T); x = relayout(rng, x); x.setflags(write=False)
             inst.accumulate(x, 0) if rng.random() < 0.5 else inst.accumulate(x, axis=-2)
             pos += k
             calls.append("t2T:%d" % k)
@@ -336,10 +339,10 @@ def _feed(inst, data, rng, style):
                 a, b = 1, min(b, left)
             blk = data[pos:pos + a * b].reshape(a, b, F)
             if kind == "t3":
-                x = np.array(blk); x.setflags(write=False)
+                x = np.array(blk); x = relayout(rng, x); x.setflags(write=False)
                 inst.accumulate(x, axis=int(rng.choice([-1, 2])))
             else:
-                x = np.array(np.moveaxis(blk, -1, 1)); x.setflags(write=False)
+                x = np.array(np.moveaxis(blk, -1, 1)); x = relayout(rng, x); x.setflags(write=False)
                 inst.accumulate(x, axis=int(rng.choice([1, -2])))
             pos += a * b
             calls.append("%s:%dx%d" % (kind, a, b))
@@ -354,6 +357,8 @@ def run_case(case, rec, mon=None):
         mon.attach()
     mon.case = case
     from pydrobert.speech import post as P
+
+    from ..common import relayout
 
     rng = rng_for(case["seed"], "C16", case["idx"])
     with warnings.catch_warnings():
@@ -415,7 +420,7 @@ def run_case(case, rec, mon=None):
             outs = []
             for inst in insts:
                 in_place = bool(rng.random() < 0.2)
-                xx = np.array(x)
+                xx = relayout(rng, np.array(x))
                 if not in_place:
                     xx.setflags(write=False)
                 try:
